@@ -265,7 +265,8 @@ def render_def(name, d, prog, pkg):
             else:
                 L.append("    r.append(%s)" % expr)
         elif form == "hidden":
-            L.append("    r.append(globals()[%r](x - 1) if x > 0 else None)" % t)
+            tbl = "globals()" if td["where"] == here else "vars(%s)" % td["where"]
+            L.append("    r.append(%s[%r](x - 1) if x > 0 else None)" % (tbl, t))
         else:
             if "." in expr:
                 # `module.func(...)` compiles differently in a module file (where the compiler sees the import and
@@ -302,7 +303,8 @@ def render_lambda(name, d, prog):
             else:
                 items.append(expr)
         elif form == "hidden":
-            items.append("(globals()[%r](x - 1) if x > 0 else None)" % t)
+            tbl = "globals()" if td["where"] == here else "vars(%s)" % td["where"]
+            items.append("(%s[%r](x - 1) if x > 0 else None)" % (tbl, t))
         elif "." in expr:
             items.append("(lambda _t: _t(x - 1) if x > 0 else None)(%s)" % expr)
         else:
